@@ -164,7 +164,7 @@ func cfgHooks(c *Ctx, entries []string) {
 
 func genHookLists(c *Ctx, r *Rng, n int) {
 	pool := []string{"ca:ok", "ta:ok", "vi:1:2:60", "vi:1:1:1", "ca:ok", "ta:ok", "unknown", "ca:both", "ca:badlen", "ta:both", "ta:badhex",
-		"vi:0:1:60", "vi:-1:2:60", "vi:3:2:60", "vi:1:2:0", "vi:1:2:-5", "vi:0:0:60" /* NaN */, "vi:1:1000000:1"}
+		"vi:0:1:60", "vi:-1:2:60", "vi:3:2:60", "vi:1:2:0", "vi:1:2:-5", "vi:0:0:60" /* NaN */, "vi:1:1000000:1", "vi:1:2:2147483647", "vi:1:2:2147483648", "vi:1:1:10000000000"}
 	cfgHooks(c, nil)
 	for _, e := range pool {
 		cfgHooks(c, []string{e})
